@@ -6,13 +6,13 @@ from vf import gens, oracles
 from vf.runner import hyp_run, run_cases, guard, fail, exc_failure
 
 RULE = ("completeness: lattice in {cubic F/I/P, hexagonal, tetragonal, orthorhombic, monoclinic, rhombohedral(R on "
-        "hexagonal axes), rhombohedral P} x 1-8 grains with uniform random orientations x all allowed hkl to a d* "
+        "hexagonal axes), rhombohedral P, pseudo-orthorhombic monoclinic, pseudo-cubic tetragonal} x 1-8 grains with uniform random orientations x all allowed hkl to a d* "
         "limit giving 40-700 reflections per grain, exact g = U.B.h, shuffled; parameters hkl_tol in {0.01..0.05}, "
         "cosine_tol in {0.002, cos(89.9), negative 'all matches' mode}, ds_tol, minpks = 0.5-0.9 x reflections, "
         "uniqueness 0.5; grains are 'well separated' by construction (no true UBI indexes > 10% of another grain's "
         "peaks; such draws are re-oriented and counted); soundness: the same plus Gaussian noise 1e-4..5e-3, 0-50% "
         "deleted peaks, 0-100% spurious peaks, low minpks, large tolerances; drivers indexer.score_all_pairs, "
-        "indexing.index(colfile), do_index; oracle: reference recount of indexed peaks, handedness, cell within "
+        "indexing.index(colfile), do_index (six generating rings, one ring when two of its peaks fix the lattice, rings beyond those of an earlier run on the same unitcell object); sub-checks axial (only the (100),(010),(001) rings of an orthogonal P cell generate), ringtable (pseudo-symmetric cell, ds_tol 0.001-0.01, generating ring named by its number), onering (data on the first ring only); a grain is required when its own orientation indexes more than the minimum in force; oracle: reference recount of indexed peaks, handedness, cell within "
         "tolerance, uniqueness-history invariant, unimodular-equivalence with the simulated grains, ring assignment "
         "by brute force; non-trivial = >= 2 grains, or a non-cubic lattice, or > 20% spurious peaks; distinct = hash "
         "of the case")
